@@ -35,7 +35,7 @@ VARIABLES st, ok
 vars == <<st, ok>>
 
 (* index tables of the path spaces, constant definitions (evaluated once) *)
-TAB == [m \in 1..MaxM |-> [n \in 1..MaxN |-> Tables(m, n)]]
+TAB == Tup([m \in 1..MaxM |-> Tup([n \in 1..MaxN |-> Tables(m, n)], MaxN)], MaxM)
 
 Rows(m) == {r \in [1..m -> WVals] : LET s == SumInts(r, 1, m) IN s > 0 /\ (RowSum = 0 \/ s = RowSum)}
 
@@ -127,7 +127,7 @@ ChooseQ ==
 (* is evaluated as a value, but not LET definitions at the action level.    *)
 CaseOut(s) ==
   LET P    == Prep(Model(s))
-      sols == [r \in 1..Len(s.xs) |-> Solve(P, s.xs[r], s.A, s.B, s.final, TAB[s.m][Len(s.xs[r])])]
+      sols == Tup([r \in 1..Len(s.xs) |-> Solve(P, s.xs[r], s.A, s.B, s.final, TAB[s.m][Len(s.xs[r])])], Len(s.xs))
   IN [good |-> \A r \in 1..Len(s.xs) : sols[r].mech,
       out  |-> [m |-> s.m, pi |-> s.pi, tr |-> s.tr, smap |-> s.smap, em |-> s.em, eden |-> EDen,
                 start |-> s.start, final |-> s.final, seqs |-> sols]]
